@@ -189,7 +189,8 @@ def best_config_twins(rep, tier, seed):
             tb, _ = c17.one_run(g, conf, "max", "int", 1e9)
         finally:
             c17.values_fn = orig
-        fa, fb = ta["ev"][-1], tb["ev"][-1]
+        fa = next((e for e in reversed(ta["ev"]) if e["a"] == "Final"), {})
+        fb = next((e for e in reversed(tb["ev"]) if e["a"] == "Final"), {})
         same = fa.get("a") == fb.get("a") == "Final" and fa["bestT"] == fb["bestT"] and fa["bestL"] == fb["bestL"]
         runs.append({"ev": [{"same": bool(same), "excused": False}], "crashed": False,
                      "meta": {"min": {k: fa.get(k) for k in ("bestT", "bestL")}, "max": {k: fb.get(k) for k in ("bestT", "bestL")}}})
